@@ -57,16 +57,18 @@ VARIABLES opts,
           made,      \* Seq(class): the invocations made so far (history)
           failed,    \* some invocation had outcome "fail" (history)
           exit,      \* -1 running | 0 | 1
-          stdout     \* "none" | "usage" | "version" | "report"
+          stdout,    \* "none" | "usage" | "version" | "report"
+          errmsg     \* an "error: ..." line has been written to stderr
 
-vars == <<opts, pc, repo, nver, ncfg, p1, p1fail, made, failed, exit, stdout>>
+vars == <<opts, pc, repo, nver, ncfg, p1, p1fail, made, failed, exit, stdout, errmsg>>
 
 InitRest ==
         /\ pc = "gitdir" /\ repo = "unknown" /\ nver = 0 /\ ncfg = 0 /\ p1 = {} /\ p1fail = FALSE
-        /\ made = <<>> /\ failed = FALSE /\ exit = -1 /\ stdout = "none"
+        /\ made = <<>> /\ failed = FALSE /\ exit = -1 /\ stdout = "none" /\ errmsg = FALSE
 Init == opts \in OptsSet /\ InitRest
 
-Finish(code, out) == exit' = code /\ stdout' = out /\ pc' = "done"
+\* main(): a run that fails says why on stderr and exits with status 1
+Finish(code, out) == exit' = code /\ stdout' = out /\ pc' = "done" /\ errmsg' = (code # 0)
 
 \* the next location after location l when nothing went wrong
 AfterParse ==
@@ -95,33 +97,33 @@ Invoke(c, o) ==
             /\ pc = "gitdir" /\ o \in {"ok", "fail"}
             /\ IF o = "ok" THEN repo' = "unknown" /\ pc' = "shallow"
                            ELSE repo' = "none" /\ pc' = "parse"
-            /\ UNCHANGED <<nver, ncfg, p1, p1fail, exit, stdout>>
+            /\ UNCHANGED <<nver, ncfg, p1, p1fail, exit, stdout, errmsg>>
        [] c = "shallow" ->
             /\ pc = "shallow" /\ o \in {"ok", "shallowfile", "fail"}
             /\ repo' = (CASE o = "ok" -> "ok" [] o = "shallowfile" -> "shallow" [] OTHER -> "broken")
             /\ pc' = IF o = "ok" THEN "cfglist" ELSE "parse"
-            /\ UNCHANGED <<nver, ncfg, p1, p1fail, exit, stdout>>
+            /\ UNCHANGED <<nver, ncfg, p1, p1fail, exit, stdout, errmsg>>
        [] c = "cfglist" ->
             \* the list of refgroups, then the definition of each group that gitconfig mentions
             /\ \/ pc = "cfglist" /\ ncfg' = ncfg
                \/ pc = "parse" /\ repo = "ok" /\ ncfg < NGroupsMax /\ ncfg' = ncfg + 1
             /\ o \in {"ok", "fail"}
-            /\ IF o = "ok" THEN pc' = "parse" /\ UNCHANGED <<exit, stdout>> ELSE Finish(1, "none")
+            /\ IF o = "ok" THEN pc' = "parse" /\ UNCHANGED <<exit, stdout, errmsg>> ELSE Finish(1, "none")
             /\ UNCHANGED <<repo, nver, p1, p1fail>>
        [] c \in {"cfg_jv", "cfg_thr", "cfg_names", "cfg_prog"} ->
             /\ pc = c /\ ~Skip(c) /\ o \in {"ok", "absent", "fail"}
-            /\ IF o = "fail" THEN Finish(1, "none") ELSE pc' = NextCfg(c) /\ UNCHANGED <<exit, stdout>>
+            /\ IF o = "fail" THEN Finish(1, "none") ELSE pc' = NextCfg(c) /\ UNCHANGED <<exit, stdout, errmsg>>
             /\ UNCHANGED <<repo, nver, ncfg, p1, p1fail>>
        [] c = "refs" ->
             /\ pc = "refs" /\ o \in {"ok", "fail"}
             /\ IF o = "fail" THEN Finish(1, "none")
-               ELSE pc' = (IF opts.nroots > 0 THEN "verify" ELSE "pipe1") /\ UNCHANGED <<exit, stdout>>
+               ELSE pc' = (IF opts.nroots > 0 THEN "verify" ELSE "pipe1") /\ UNCHANGED <<exit, stdout, errmsg>>
             /\ UNCHANGED <<repo, nver, ncfg, p1, p1fail>>
        [] c = "verify" ->
             /\ pc = "verify" /\ nver < opts.nroots /\ o \in {"ok", "fail"}
             /\ nver' = nver + 1
             /\ IF o = "fail" THEN Finish(1, "none")
-               ELSE pc' = (IF nver' = opts.nroots THEN "pipe1" ELSE "verify") /\ UNCHANGED <<exit, stdout>>
+               ELSE pc' = (IF nver' = opts.nroots THEN "pipe1" ELSE "verify") /\ UNCHANGED <<exit, stdout, errmsg>>
             /\ UNCHANGED <<repo, ncfg, p1, p1fail>>
        [] c \in {"revlist", "check"} ->
             \* the two commands of the first pipeline are started together, in either order; what the
@@ -129,12 +131,12 @@ Invoke(c, o) ==
             /\ pc = "pipe1" /\ c \notin p1 /\ o \in {"ok", "fail"}
             /\ p1' = p1 \cup {c} /\ p1fail' = (p1fail \/ o = "fail")
             /\ IF p1' = {"revlist", "check"}
-               THEN IF p1fail' THEN Finish(1, "none") ELSE pc' = "batch" /\ UNCHANGED <<exit, stdout>>
-               ELSE UNCHANGED <<pc, exit, stdout>>
+               THEN IF p1fail' THEN Finish(1, "none") ELSE pc' = "batch" /\ UNCHANGED <<exit, stdout, errmsg>>
+               ELSE UNCHANGED <<pc, exit, stdout, errmsg>>
             /\ UNCHANGED <<repo, nver, ncfg>>
        [] c = "batch" ->
             /\ pc = "batch" /\ o \in {"ok", "fail"}
-            /\ IF o = "fail" THEN Finish(1, "none") ELSE pc' = "report" /\ UNCHANGED <<exit, stdout>>
+            /\ IF o = "fail" THEN Finish(1, "none") ELSE pc' = "report" /\ UNCHANGED <<exit, stdout, errmsg>>
             /\ UNCHANGED <<repo, nver, ncfg, p1, p1fail>>
   /\ UNCHANGED opts
 
@@ -143,12 +145,12 @@ SkipCfg ==
   /\ exit = -1 /\ pc \in {"cfg_jv", "cfg_thr", "cfg_names", "cfg_prog"} /\ Skip(pc)
   /\ IF pc = "cfg_jv" /\ opts.json /\ opts.jv /\ opts.jvbad
      THEN Finish(1, "none")                       \* "JSON version must be 1 or 2"
-     ELSE pc' = NextCfg(pc) /\ UNCHANGED <<exit, stdout>>
+     ELSE pc' = NextCfg(pc) /\ UNCHANGED <<exit, stdout, errmsg>>
   /\ UNCHANGED <<opts, repo, nver, ncfg, p1, p1fail, made, failed>>
 Parse ==
   /\ exit = -1 /\ pc = "parse"
   /\ pc' = AfterParse
-  /\ UNCHANGED <<opts, repo, nver, ncfg, p1, p1fail, made, failed, exit, stdout>>
+  /\ UNCHANGED <<opts, repo, nver, ncfg, p1, p1fail, made, failed, exit, stdout, errmsg>>
 Exit ==
   /\ exit = -1
   /\ CASE pc = "exit_usage"   -> Finish(0, "usage")
@@ -181,6 +183,7 @@ AllOrNothing ==
   /\ stdout = "report" => exit = 0 /\ ~failed /\ repo = "ok"
   /\ (exit = 0 /\ opts.kind = "scan") => stdout = "report"
   /\ (failed /\ exit # -1 /\ opts.kind = "scan") => exit = 1 /\ stdout = "none"
+  /\ (exit = 1) = errmsg
 Terminates == <>(exit # -1)
 
 \* C13: a shallow clone, or a directory that is no repository, is never measured
